@@ -483,6 +483,7 @@ class Engine:
         self.stats = dict(solver_calls=0, solver_time=0.0, paths=0)
         self.branch_timeout_ms = 5000
         self.prove_timeout_ms = 20000
+        self.stale_notes = set()
         self.harness_budget_s = 90         # wall-clock budget per harness; exceeding it is "undecided", never a verdict
         self.deadline = None
         self.quant_first_try_ms = 800      # first attempt on queries with quantified assumptions before qinst takes over
@@ -862,6 +863,7 @@ class Engine:
                 self._kill_generators()
         self.stats['paths'] += npaths
         self.path = None
+        errors.extend(sorted(self.stale_notes))
         return self.results, errors
 
     def _kill_generators(self):
@@ -922,8 +924,24 @@ class Engine:
                     raise Unsupported("contract out of date: the code uses .%s on an object the contract's pre-state models as %s "
                                       "(representation changed?)" % (name, obj.cls.name))
                 if getattr(obj, 'is_shape', False) and name in self.init_assigned(obj.cls):
-                    raise Unsupported("contract out of date: the pre-state shape given for %s lacks attribute %r, which "
-                                      "its __init__ always sets" % (obj.cls.name, name))
+                    # The contract's pre-state shape does not know this attribute (added to the class after the contract was
+                    # written).  Continue with the value the real initialiser gives it, so that a violation reachable from
+                    # there is still found - but the harness can no longer count as proved: recorded as "out of date".
+                    msg = ("contract out of date: the pre-state shape given for %s lacks attribute %r, which its initialiser "
+                           "always sets" % (obj.cls.name, name))
+                    ent = getattr(obj.cls, '_init_exprs', {}).get(name)
+                    if ent is None:
+                        raise Unsupported(msg)
+                    f, node, me = ent
+                    try:
+                        env = Env(f.module, f, f.env)
+                        env.vars = {me: obj}
+                        val = self.eval(node, env)
+                    except (PyExc, KeyError):
+                        raise Unsupported(msg)
+                    obj.attrs[name] = val
+                    self.stale_notes.add(msg + ' (checked with its initial value only)')
+                    return val
                 self.throw('AttributeError', "'%s' object has no attribute '%s'" % (obj.cls.name, name))
             return self._bind(v, obj, owner)
         if isinstance(obj, SuperProxy):
@@ -990,15 +1008,31 @@ class Engine:
         if cache is not None:
             return cache
         out = set()
+        seen = set()
+
+        def scan(f, depth):
+            if not (isinstance(f, PyFunc) and f.node.args.args) or f.qualname in seen or depth > 3:
+                return
+            seen.add(f.qualname)
+            me = f.node.args.args[0].arg
+            for st in f.node.body:
+                tgts = st.targets if isinstance(st, ast.Assign) else ([st.target] if isinstance(st, ast.AnnAssign) and st.value is not None else [])
+                for t in tgts:
+                    if isinstance(t, ast.Attribute) and isinstance(t.value, ast.Name) and t.value.id == me:
+                        out.add(t.attr)
+                        if getattr(st, 'value', None) is not None:
+                            cls.__dict__.setdefault('_init_exprs', {}).setdefault(t.attr, (f, st.value, me))
+                # initialisers called unconditionally from __init__ (self._reset_internals() ...)
+                if isinstance(st, ast.Expr) and isinstance(st.value, ast.Call) and isinstance(st.value.func, ast.Attribute) \
+                        and isinstance(st.value.func.value, ast.Name) and st.value.func.value.id == me:
+                    g, _ = cls.lookup(st.value.func.attr)
+                    scan(g, depth + 1)
         for c in cls.mro:
-            f = c.dict.get('__init__')
-            if isinstance(f, PyFunc) and f.node.args.args:
-                me = f.node.args.args[0].arg
-                for st in f.node.body:
-                    tgts = st.targets if isinstance(st, ast.Assign) else ([st.target] if isinstance(st, ast.AnnAssign) and st.value is not None else [])
-                    for t in tgts:
-                        if isinstance(t, ast.Attribute) and isinstance(t.value, ast.Name) and t.value.id == me:
-                            out.add(t.attr)
+            scan(c.dict.get('__init__'), 0)
+        # (re-)initialisers every endpoint runs before it handles anything (RSocketClient runs it from connect())
+        for nm in ('_reset_internals', '_setup_internals'):
+            g, _ = cls.lookup(nm)
+            scan(g, 1)
         cls._init_assigned = out
         return out
 
